@@ -220,7 +220,7 @@ impl Check for C03 {
             .boxed()
     }
     fn rule(&self) -> String {
-        "pair of programs (the second is the first with one rule replaced/added/dropped, reordered, identical, or unrelated) x {tau-star, mu} x direction x decomposition x simplify x eq-break x a pair (H,T), 1 in 7 with H not a subset of T (1 pair in 3 guided: the closure of one of the programs minus an atom); oracle: an interpretation of the h-/t-copies refutes an emitted forward (backward) problem (exact classical evaluation of the problems' syntax trees) iff H subset-of T and (H,T) satisfies the left (right) program but not the right (left) one by the reference semantics; non-trivial = H subset-of T, both verdicts definite and the axioms of some problem hold, or H not a subset of T; distinct by programs + flags + interpretation; in one case in five every formula of every problem is also read back from the emitted TPTP text by the strict reader and must have its tree's truth value in the interpretation; one case in twelve is also run through the command line (programs named a.lp b.lp / n.lp b.lp / as a directory / file plus its directory / v2/prog.lp v1/prog.lp, the left program always first): the files written by --save-problems must be the problems judged in-process".into()
+        "pair of programs (the second is the first with one rule replaced/added/dropped, reordered, identical, or unrelated) x {tau-star, mu} x direction x decomposition x simplify x eq-break x a pair (H,T), 1 in 7 with H not a subset of T (1 pair in 3 guided: the closure of one of the programs minus an atom); oracle: an interpretation of the h-/t-copies refutes an emitted forward (backward) problem (exact classical evaluation of the problems' syntax trees) iff H subset-of T and (H,T) satisfies the left (right) program but not the right (left) one by the reference semantics; non-trivial = H subset-of T, both verdicts definite and the axioms of some problem hold, or H not a subset of T; distinct by programs + flags + interpretation; in one case in five every formula of every problem is also read back from the emitted TPTP text by the strict reader: it must have its tree's truth value in the interpretation and the same comparisons, relation by relation; one case in twelve is also run through the command line (programs named a.lp b.lp / n.lp b.lp / as a directory / file plus its directory / v2/prog.lp v1/prog.lp, the left program always first): the files written by --save-problems must be the problems judged in-process".into()
     }
     fn run(&self, case: &Case) -> Outcome {
         let direction = direction_of(case.direction);
